@@ -170,7 +170,9 @@ open Rdest Rdest.Wire Rdest.Swarm
 def propPred (prop : String) (mode : String) (tr : Trace) : Option String :=
   let expected : Option Bytes := if mode.startsWith "out:" then parseHex (mode.drop 4).toString else none
   match prop with
-  | "C11" => if P11 tr then none else some "P11-have-announcements"
+  | "C11" => if !P11 tr then some "P11-have-announcements"
+             else if !P01 tr then some "P01-piece-reported-done-(and-so-announced)-without-verified-data-stored-first" else none
+  | "C14" => if P14 tr then none else some "P14-own-state-broadcast-not-put-on-the-wire-as-the-matching-message"
   | "C01" => if P01 tr then none else some "P01-only-verified-data-stored"
   | "C10" => if P10 Rdest.Gen.PIECE_BLOCK_SIZE tr then none else some "P10-request-tiling"
   | "C09" => if P09 Rdest.Gen.PIECE_BLOCK_SIZE tr then none else some "P09-upload-discipline"
